@@ -848,7 +848,6 @@ func deferredFn(p *Program, d *ssa.Defer) *ssa.Function {
 	return nil
 }
 
-
 // deferredWithResultCell: every use of fn is a defer statement that passes, for parameter par, the address of a result
 // cell of the deferring function (a cell its returns load). Returns that function (the last one), nil otherwise.
 func (p *Program) deferredWithResultCell(fn *ssa.Function, par *ssa.Parameter) *ssa.Function {
